@@ -134,9 +134,18 @@ def Spec.anyVersion (c : Spec) (stacks : List Nat) (n : Name) (f : Flav) : Bool 
 single-component versions, on which `hooks.version_cmp` is the string order (C10 owns the general case) -/
 def verLe (a b : Ver) : Bool := Str.cmp a b ≤ 0
 
+/-- insertion into a list sorted by version (structural, so that closed instances reduce by `decide`) -/
+def insertByVer (d : Decl) : List Decl → List Decl
+  | [] => [d]
+  | x :: xs => if verLe d.ver x.ver then d :: x :: xs else x :: insertByVer d xs
+
+def sortByVer : List Decl → List Decl
+  | [] => []
+  | d :: ds => insertByVer d (sortByVer ds)
+
 /-- versions of (s, n, f), sorted: `stack.getVersions(pname, flavor)` + `vers.sort(version_cmp)` -/
 def Spec.versionsOf (c : Spec) (s : Nat) (n : Name) (f : Flav) : List Decl :=
-  (c.decls.filter fun d => d.stack == s && d.name == n && d.flav == f).mergeSort (fun a b => verLe a.ver b.ver)
+  sortByVer (c.decls.filter fun d => d.stack == s && d.name == n && d.flav == f)
 
 /-- `utils.uniq` over `Product`s: `Product.__eq__` compares name, version and flavor, not the stack -/
 def uniqNVF : List Decl → List Decl
@@ -356,7 +365,21 @@ def redeclare (old : Option Decl) (d : Dir) (table : Table) (hasTag force : Bool
       (if hasTag then .keep else .refuse)
     else .keep
 
-def declare (nst : Nat) (a : DeclareArgs) (p : Proc) : Outcome × Proc :=
+/-- what the argument handling of `declare` settles before anything is checked against the database -/
+structure Resolved where
+  d : Dir                -- productDir
+  table : Table
+  target : Nat           -- eupsPathDir (= eupsPathDirForRead: every stack is writable)
+  deriving DecidableEq, Repr
+
+/-- the tag asked for, or `current` for the first version of the product (l.2538) -/
+def declareTag (nst : Nat) (a : DeclareArgs) (m : Spec) : Option Tag :=
+  match a.tag with
+  | some t => some t
+  | none => if (findProducts m nst a.self a.name none (allStacks nst)).isEmpty then some current else none
+
+/-- argument resolution of `Eups.declare` (l.2326-2525); `none`: one of the `EupsException`s raised there -/
+def resolveDeclare (nst : Nat) (a : DeclareArgs) (p : Proc) : Option Resolved :=
   let m := p.mem
   -- `if tag and (not productDir or not tablefile)`: look the product up, native flavor first
   let info : Option Decl :=
@@ -378,32 +401,38 @@ def declare (nst : Nat) (a : DeclareArgs) (p : Proc) : Outcome × Proc :=
         let d : Dir := ⟨s, relDir fl a.name a.ver⟩
         if p.dirExists d then some d else none
   match dir2 with
-  | none => (.refused, p)                           -- "Please specify a productDir"
+  | none => none                                    -- "Please specify a productDir"
   | some d =>
-    if !(p.dirExists d) then (.refused, p) else     -- "is not a directory"
+    if !(p.dirExists d) then none else              -- "is not a directory"
     -- the stack: the one given, else the one holding the directory, else the first writable one
     let target : Nat := match a.stack with
       | some s => s
       | none => if d.root < nst then d.root else 0
-    if table == .default && !(p.tableExists d a.name) then (.refused, p) else   -- "tablefile does not exist"
-    -- first version of the product: it becomes current
-    let tag : Option Tag := match a.tag with
-      | some t => some t
-      | none => if (findProducts m nst a.self a.name none (allStacks nst)).isEmpty then some current else none
-    match redeclare (m.findDecl target a.name a.ver a.self) d table tag.isSome a.force with
-    | .refuse => (.refused, p)
-    | r =>
-      let p1 : Proc :=
-        if r == .write && !a.noaction then
-          let dcl : Decl := ⟨target, a.name, a.ver, a.self, d, table⟩
-          ((p.emit (.dbDeclare dcl tag)).emit (.memAdd dcl tag)).emit (.save target a.self)
-        else p
-      match tag with
-      | none => (.ok, p1)
-      | some t =>
-        if a.noaction then (.ok, p1) else
-        let p2 := purgeAll nst a.self t a.name (allStacks nst) p1
-        assignTag a.self t a.name a.ver [target] p2
+    if table == .default && !(p.tableExists d a.name) then none else   -- "tablefile does not exist"
+    some ⟨d, table, target⟩
+
+/-- the part of `declare` that acts (l.2634-2702): the version record, then the tag -/
+def declareFinish (nst : Nat) (a : DeclareArgs) (r : Resolved) (tag : Option Tag) (rd : Redeclare) (p : Proc) :
+    Outcome × Proc :=
+  let p1 : Proc :=
+    if rd == .write && !a.noaction then
+      let dcl : Decl := ⟨r.target, a.name, a.ver, a.self, r.d, r.table⟩
+      ((p.emit (.dbDeclare dcl tag)).emit (.memAdd dcl tag)).emit (.save r.target a.self)
+    else p
+  match tag with
+  | none => (.ok, p1)
+  | some t =>
+    if a.noaction then (.ok, p1) else
+    assignTag a.self t a.name a.ver [r.target] (purgeAll nst a.self t a.name (allStacks nst) p1)
+
+def declare (nst : Nat) (a : DeclareArgs) (p : Proc) : Outcome × Proc :=
+  match resolveDeclare nst a p with
+  | none => (.refused, p)
+  | some r =>
+    let tag := declareTag nst a p.mem
+    match redeclare (p.mem.findDecl r.target a.name a.ver a.self) r.d r.table tag.isSome a.force with
+    | .refuse => (.refused, p)                     -- "Redeclaring ...; specify force to proceed"
+    | rd => declareFinish nst a r tag rd p
 
 /-! ## `Eups.undeclare` -/
 
@@ -417,31 +446,36 @@ structure UndeclareArgs where
   noaction : Bool
   deriving Repr
 
+/-- `if not versionName`: the version is inferred when the listing of the product has one entry -/
+def inferVersion (nst : Nat) (a : UndeclareArgs) (ver : Option Ver) (m : Spec) : Except Outcome Ver :=
+  match ver with
+  | some v => .ok v
+  | none =>
+    match findProducts m nst a.self a.name none (stacksOf nst a.stack) with
+    | [] => .error .notFound
+    | [d] => .ok d.ver
+    | _ => .error .refused                -- "has versions ...; please choose one"
+
+/-- `if tag: self.unassignTag(tag, productName, versionName, eupsPathDir)` (its outcome is not looked at) -/
+def untagFirst (nst : Nat) (a : UndeclareArgs) (v : Ver) (s : Nat) (p : Proc) : Proc :=
+  match a.tag with
+  | some t => (unassignTag nst a.self t a.name (some v) (some s) a.noaction p).2
+  | none => p
+
+/-- the dry-run guard and what follows it: `Database.undeclare`, the cache -/
+def removeVersion (a : UndeclareArgs) (v : Ver) (s : Nat) (p : Proc) : Outcome × Proc :=
+  if a.noaction then (.ok, p) else
+  if !(p.db.hasDecl s a.name v a.self) then (.notFound, p) else   -- `Database.undeclare` found nothing
+  (.ok, ((p.emit (.dbUndeclare s a.name v a.self)).emit (.memRemove s a.name v a.self)).emit (.save s a.self))
+
 /-- the part of `Eups.undeclare` after the tag-only exit -/
 def undeclareVersion (nst : Nat) (a : UndeclareArgs) (ver : Option Ver) (p : Proc) : Outcome × Proc :=
-  let stacks := stacksOf nst a.stack
-  let verR : Except Outcome Ver := match ver with
-    | some v => .ok v
-    | none =>
-      match findProducts p.mem nst a.self a.name none stacks with
-      | [] => .error .notFound
-      | [d] => .ok d.ver
-      | _ => .error .refused                -- "has versions ...; please choose one"
-  match verR with
+  match inferVersion nst a ver p.mem with
   | .error o => (o, p)
   | .ok v =>
-    match p.mem.findIn stacks a.name v a.self with
+    match p.mem.findIn (stacksOf nst a.stack) a.name v a.self with
     | none => (.notFound, p)
-    | some prod =>
-      let s := prod.stack
-      let p1 : Proc := match a.tag with
-        | some t => (unassignTag nst a.self t a.name (some v) (some s) a.noaction p).2
-        | none => p
-      if a.noaction then (.ok, p1) else
-      if !(p1.db.hasDecl s a.name v a.self) then (.notFound, p1) else   -- `Database.undeclare` found nothing
-      let p2 := p1.emit (.dbUndeclare s a.name v a.self)
-      let p3 := p2.emit (.memRemove s a.name v a.self)
-      (.ok, p3.emit (.save s a.self))
+    | some prod => removeVersion a v prod.stack (untagFirst nst a v prod.stack p)
 
 def undeclare (nst : Nat) (a : UndeclareArgs) (p : Proc) : Outcome × Proc :=
   match a.tag with
